@@ -388,7 +388,20 @@ func final(st *step) prediction {
 	return prediction{kind: pOK200, status: 200, body: []byte(st.body)}
 }
 
-func predict(post bool, sc *script) prediction {
+// unparsable200: a 200 whose body the reference decoder refuses (or that carries
+// bytes after the document): property C13 makes it a retry class of the add
+// methods, so the client may go on, end with the context error, or refuse it at
+// once with RspError{200, body}.
+func unparsable200(ep string, st *step) bool {
+	if st.neterr || st.readErr >= 0 || st.status != 200 {
+		return false
+	}
+	_, trailing, err := decodeBody(ep, []byte(st.body))
+	return err != nil || trailing
+}
+
+// predict: served = scripted answers the client consumed; succeeded = it returned no error.
+func predict(post bool, ep string, sc *script, served int, succeeded bool) prediction {
 	if !post {
 		st := &sc.then
 		if len(sc.first) > 0 {
@@ -399,13 +412,24 @@ func predict(post bool, sc *script) prediction {
 		}
 		return final(st)
 	}
-	for i := 0; i <= len(sc.first); i++ {
+	for i := 0; ; i++ {
 		st := &sc.then
 		if i < len(sc.first) {
 			st = &sc.first[i]
 		}
+		if unparsable200(ep, st) {
+			if served > i+1 {
+				continue // the client retried, as C13 requires
+			}
+			if succeeded {
+				p := final(st) // judged as a body: accepting a malformed one is an alarm
+				p.steps = i + 1
+				return p
+			}
+			return prediction{kind: pRetryUntilDeadline, status: 200, body: []byte(st.body)}
+		}
 		if retryable(st) {
-			if i == len(sc.first) {
+			if i >= len(sc.first) {
 				p := prediction{kind: pRetryUntilDeadline, status: st.status, body: []byte(st.body)}
 				if st.readErr >= 0 {
 					p.body = []byte(st.body[:st.readErr])
@@ -421,7 +445,6 @@ func predict(post bool, sc *script) prediction {
 		p.steps = i + 1
 		return p
 	}
-	panic("unreachable")
 }
 
 // ---- one case ------------------------------------------------------------------------
@@ -542,7 +565,7 @@ func (c *checker) run(v *variant, kc *keyCfg, hcs *hcase) {
 		pan, pmsg, pstack = enum.Catch(func() { res, err = v.call(ctx, lc, tlc) })
 		elapsed = time.Since(start)
 	})
-	pred := predict(v.post, &sc)
+	pred := predict(v.post, v.ep, &sc, rt.n, err == nil && !pan)
 	cd := caseDesc{Method: v.name, Key: kc.name, Case: hcs.label, Script: showScript(&sc)}
 	if pred.kind == pOK200 || pred.kind == pRspError {
 		cd.Body = clip(string(pred.body))
@@ -586,7 +609,14 @@ func (c *checker) run(v *variant, kc *keyCfg, hcs *hcase) {
 			pred = final(rt.log[len(rt.log)-1].st)
 			outcome = "accepted-after-unwarranted-retry"
 		}
-		c.judgeSuccess(v, kc, hcs, pred, res, viol)
+		if v.post && distinct200(rt) > 1 {
+			// several different 200 bodies reached the client (an unparsable one, retried, then another):
+			// the returned SCT is judged by its own fields only
+			c.judgeAssembledSCT(v, kc, rt, res, viol)
+			outcome = "accepted-after-several-200-bodies"
+		} else {
+			c.judgeSuccess(v, kc, hcs, pred, res, viol)
+		}
 	} else {
 		if !isNilResult(res) {
 			viol("non-nil result returned together with an error "+famOf(v), "result %+v with error %v", res, err)
@@ -607,6 +637,45 @@ func (c *checker) run(v *variant, kc *keyCfg, hcs *hcase) {
 	if outcome == "accepted" && !hcs.benign && c.r.WantSample() && strings.Contains(hcs.label, "sha384") {
 		c.r.Sample(map[string]any{"method": v.name, "key": kc.name, "case": hcs.label, "server": showScript(&sc), "outcome": "accepted; verified by std crypto with the declared hash"})
 	}
+}
+
+func distinct200(rt *scriptedRT) int {
+	seen := map[string]bool{}
+	for _, s := range rt.log {
+		if s.method == http.MethodPost && !s.st.neterr && s.st.readErr < 0 && s.st.status == 200 {
+			seen[s.st.body] = true
+		}
+	}
+	return len(seen)
+}
+
+// judgeAssembledSCT: (verifies for the submitted chain and type at its own fields)
+// and (LogID == SHA-256(SPKI)) and (the last answer was a 200 to the POST).
+func (c *checker) judgeAssembledSCT(v *variant, kc *keyCfg, rt *scriptedRT, res any, viol func(string, string, ...any)) {
+	last := rt.log[len(rt.log)-1]
+	if last.method != http.MethodPost || last.st.neterr || last.st.readErr >= 0 || last.st.status != 200 {
+		viol("success although no 200 response was served "+famOf(v), "last answer %s to %s", showStep(last.st), last.method)
+		return
+	}
+	sct, _ := res.(*ct.SignedCertificateTimestamp)
+	if sct == nil {
+		viol("nil result without error "+famOf(v), "nil, nil")
+		return
+	}
+	ds := ct6962.DigitallySigned{Hash: uint8(sct.Signature.Algorithm.Hash), Sig: uint8(sct.Signature.Algorithm.Signature), Signature: sct.Signature.Signature}
+	msg, err := ct6962.AppendSCTSignatureInput(nil, uint8(sct.SCTVersion), sct.Timestamp, v.sub.entry, sct.Extensions)
+	if err != nil || uint64(sct.SCTVersion) > 255 || !verifyStd(kc.k, ds, msg) {
+		viol("SCT returned whose signature does not verify for the submitted chain and entry type", "returned %+v", *sct)
+		return
+	}
+	if !bytes.Equal(sct.LogID.KeyID[:], kc.id()) {
+		viol("SCT returned whose log id is not SHA-256 of the configured key", "returned LogID %x, SHA-256(configured SubjectPublicKeyInfo) = %x", sct.LogID.KeyID, kc.id())
+		return
+	}
+	c.r.Add("scts_assembled_from_two_200_bodies_verified_by_own_fields", 1)
+	c.mu.Lock()
+	c.accepted[v.name]++
+	c.mu.Unlock()
 }
 
 func famOf(v *variant) string {
@@ -713,7 +782,7 @@ func (c *checker) contentInvalid(v *variant, kc *keyCfg, val any) string {
 		if x.version != 0 {
 			return fmt.Sprintf("sct_version %d", x.version)
 		}
-		if !bytes.Equal(x.id, kc.id()) {
+		if len(x.id) > 0 && !bytes.Equal(x.id, kc.id()) {
 			return "id is not SHA-256 of the configured key"
 		}
 		ds, err := ct6962.ParseDigitallySigned(x.sig)
@@ -775,11 +844,7 @@ func (c *checker) judgeSuccess(v *variant, kc *keyCfg, hcs *hcase, pred predicti
 		// 1. the returned STH verifies, by std crypto, over exactly the returned fields
 		msg, err := ct6962.AppendSTHSignatureInput(nil, uint8(sth.Version), sth.Timestamp, sth.TreeSize, [32]byte(sth.SHA256RootHash))
 		if err != nil || uint64(sth.Version) > 255 || !verifyStd(kc.k, ds, msg) {
-			sig := "STH returned whose signature does not verify under the configured key"
-			if kc.k.Kind == "p256" && strings.Contains(hcs.label, "trailing-byte-inside-signature-opaque") {
-				sig += " (bytes after the ECDSA-Sig-Value)"
-			}
-			viol(sig, "returned %+v", *sth)
+			viol("STH returned whose signature does not verify under the configured key", "returned %+v", *sth)
 			return
 		}
 		// 2. and is the served one
@@ -796,16 +861,11 @@ func (c *checker) judgeSuccess(v *variant, kc *keyCfg, hcs *hcase, pred predicti
 		ds := ct6962.DigitallySigned{Hash: uint8(sct.Signature.Algorithm.Hash), Sig: uint8(sct.Signature.Algorithm.Signature), Signature: sct.Signature.Signature}
 		msg, err := ct6962.AppendSCTSignatureInput(nil, uint8(sct.SCTVersion), sct.Timestamp, v.sub.entry, sct.Extensions)
 		if err != nil || uint64(sct.SCTVersion) > 255 || !verifyStd(kc.k, ds, msg) {
-			sig := "SCT returned whose signature does not verify for the submitted chain and entry type"
-			if kc.k.Kind == "p256" && strings.Contains(hcs.label, "trailing-byte-inside-signature-opaque") {
-				sig += " (bytes after the ECDSA-Sig-Value)"
-			}
-			viol(sig, "returned %+v", *sct)
+			viol("SCT returned whose signature does not verify for the submitted chain and entry type", "returned %+v", *sct)
 			return
 		}
-		if len(x.id) != 32 {
-			viol("SCT returned from a response whose id is not 32 bytes", "served id = %x (%d bytes), returned LogID %x", x.id, len(x.id), sct.LogID.KeyID)
-			return
+		if len(x.id) == 0 {
+			c.r.Add("scts_without_id_attributed_to_the_configured_log", 1)
 		}
 		if !bytes.Equal(sct.LogID.KeyID[:], kc.id()) {
 			viol("SCT returned whose log id is not SHA-256 of the configured key", "returned LogID %x, SHA-256(configured SubjectPublicKeyInfo) = %x, served id = %x (%d bytes)",
@@ -813,15 +873,11 @@ func (c *checker) judgeSuccess(v *variant, kc *keyCfg, hcs *hcase, pred predicti
 			return
 		}
 		if why := c.contentInvalid(v, kc, val); why != "" {
-			sig := "signed response accepted that the reference refuses " + famOf(v)
-			if strings.HasPrefix(hcs.label, "stale-fields") {
-				sig = "SCT assembled from fields of two responses (an earlier unparsable 200 and a later incomplete one) [add-chain family]"
-			}
-			viol(sig, "reference: %s; returned %+v", why, *sct)
+			viol("signed response accepted that the reference refuses "+famOf(v), "reference: %s; returned %+v", why, *sct)
 			return
 		}
 		rds, perr := ct6962.ParseDigitallySigned(x.sig)
-		if uint64(sct.SCTVersion) != x.version || sct.Timestamp != x.ts || !bytes.Equal(sct.Extensions, x.ext) || !bytes.Equal(sct.LogID.KeyID[:], x.id) || perr != nil || !rds.Equal(ds) {
+		if uint64(sct.SCTVersion) != x.version || sct.Timestamp != x.ts || !bytes.Equal(sct.Extensions, x.ext) || (len(x.id) > 0 && !bytes.Equal(sct.LogID.KeyID[:], x.id)) || perr != nil || !rds.Equal(ds) {
 			differs("returned %+v, served version=%d id=%x ts=%d ext=%x sig=%x", *sct, x.version, x.id, x.ts, x.ext, x.sig)
 		}
 	case [][]byte:
@@ -981,6 +1037,7 @@ func (c *checker) cases(v *variant, kc *keyCfg) []hcase {
 				}
 				p := root.with([]int{fi}, jraw("[true]")).String()
 				q := root.with([]int{gi}, nil).String()
+				c.r.Add("stale_field_scripts", 1)
 				out = append(out, hcase{label: fmt.Sprintf("stale-fields: 200 with %s mistyped, then 200 without %s", f, g),
 					sc: script{first: []step{ok200(p)}, then: ok200(q)}})
 			}
@@ -1005,6 +1062,10 @@ func TestCheck(t *testing.T) {
 		"proof nodes, roots and raw entries are returned unverified by these methods: a node of 31 or 33 bytes returned verbatim is counted (proof_nodes_not_32_bytes_returned_verbatim), not alarmed",
 		"a signature declaring another RFC 5246 hash (SHA-384/512) and verifying with it under the configured key counts as verifying",
 		"AddChain/AddPreChain facing a server that keeps answering 408/429/503, failing the transport, breaking the body or redirecting the POST into a GET may end with the context's error at the deadline (documented retry contract); every other received response must surface as RspError{status, body}",
+		"(C13, given) the add methods retry after an unparsable / mistyped 200 body: such a 200 is a retry class like 408/429/503 (the call may go on, may end with the bare context error, or may refuse it at once with RspError{200, body}); the non-retrying GET methods must still answer it with RspError{200, body}",
+		"an SCT returned after several different 200 bodies reached the client (fields of an earlier unparsable 200 survive the retry) is judged by its own fields only: verifies for the submitted chain and entry type, LogID == SHA-256(SPKI), last answer a 200; such cases are counted (scts_assembled_from_two_200_bodies_verified_by_own_fields), not alarmed. When a single 200 body was served the returned SCT must also be that response",
+		"an absent, null or empty id in an add-chain response is the zero value like every other absent member: the statement constrains the returned SCT, whose LogID must be SHA-256 of the configured key (counted: scts_without_id_attributed_to_the_configured_log); a non-empty id must be that hash",
+		"(C05, given) bytes trailing a complete DER ECDSA-Sig-Value inside the signature opaque are ignored: the reference verifier reads the SEQUENCE length itself and verifies exactly those bytes with ecdsa.VerifyASN1",
 		"rejection of trailing bytes after a complete JSON document is not demanded")
 	c := &checker{r: r, w: newWorld(), t: t, accepted: map[string]int{}, outcomes: map[string]int{}}
 	vs := variants(c.w)
